@@ -15,6 +15,7 @@ import (
 
 	"github.com/pquerna/otp/totp"
 	"golang.org/x/net/html"
+	"path"
 )
 
 // ---------------------------------------------------------------------------
@@ -147,6 +148,13 @@ func runC17(t *testing.T, cases []map[string]interface{}, ev *vEvents) {
 		dest := vRenderClasses(vStrs2(c["dest"]))
 		var r vResp
 		note := ""
+		// history: the harmless relative of this destination (one leading slash, no backslashes, no control characters,
+		// cleaned) has been through a login before - whatever the server remembers about destinations it has accepted
+		// must not vouch for this one
+		if warm := vBenignSibling(dest); warm != "" && warm != dest {
+			w.Do(vReq{Method: "POST", Path: "/api/v0/login", Headers: html,
+				Form: url.Values{"username": {"alice"}, "password": {"pw-alice"}, "login_destination": {warm}}})
+		}
 		switch vStr(c, "handler") {
 		case "login":
 			r = w.Do(vReq{Method: "POST", Path: "/api/v0/login", Headers: html,
@@ -551,4 +559,28 @@ func runC18(t *testing.T, cases []map[string]interface{}, ev *vEvents) {
 		ev.Emit(map[string]interface{}{"i": i, "ev": "Render", "case": c,
 			"out": map[string]interface{}{"findings": findings, "panic": panicked, "rendered": rendered, "pages": len(pages)}})
 	}
+}
+
+// vBenignSibling returns a plain same-site path that a normalising comparison could confuse with dest ("" if none).
+func vBenignSibling(dest string) string {
+	d := strings.Map(func(r rune) rune {
+		if r == '\\' {
+			return '/'
+		}
+		if r < 0x20 || r == 0x7f {
+			return -1
+		}
+		return r
+	}, dest)
+	if i := strings.IndexAny(d, "?#"); i >= 0 {
+		d = d[:i]
+	}
+	if !strings.HasPrefix(d, "/") {
+		return ""
+	}
+	d = path.Clean(d)
+	if d == "/" || strings.HasPrefix(d, "//") {
+		return ""
+	}
+	return d
 }
